@@ -15,6 +15,14 @@ func verifC10Server(nreq int, executorGo bool, cut bool, preempt int) {
 	e := verifHTTPEngine()
 	handled := 0
 	running, maxRun := 0, 0
+	// some answers are larger than the response writer's (scaled) flush threshold
+	bigFirst := verifChoose("big_first_body", 2) == 1
+	extra := func(i int) int {
+		if bigFirst && i == 0 {
+			return 130
+		}
+		return 0
+	}
 	e.Handler = http.HandlerFunc(func(w http.ResponseWriter, r *http.Request) {
 		handled++
 		running++
@@ -23,6 +31,9 @@ func verifC10Server(nreq int, executorGo bool, cut bool, preempt int) {
 		}
 		verifYield()
 		_, _ = w.Write([]byte(r.URL.Path))
+		if n := extra(int(r.URL.Path[1] - 'a')); n > 0 {
+			_, _ = w.Write(make([]byte, n))
+		}
 		running--
 	})
 	var nbc *nbio.Conn
@@ -99,7 +110,7 @@ func verifC10Server(nreq int, executorGo bool, cut bool, preempt int) {
 		if !d.ok {
 			return
 		}
-		verifAssertD(len(d.body) == 2 && d.body[0] == '/' && d.body[1] == byte('a'+got), "responses-in-request-order", "")
+		verifAssertD(len(d.body) == 2+extra(got) && d.body[0] == '/' && d.body[1] == byte('a'+got), "responses-in-request-order", "")
 		if got < want-1 || closeAfter < 0 {
 			_, n := d.get("Connection")
 			verifAssertD(n == 0, "persistent-response-does-not-announce-close", "")
